@@ -81,7 +81,7 @@ func ruleC05(c *Ctx, r *Result) {
 					if dst.Low != nil {
 						p = fb.lin(dst.Low)
 					}
-					if p.equal(end) {
+					if p.equal(end) || sameCursorLoad(p, end) {
 						okStore = true
 					}
 				case *ssa.BinOp:
@@ -250,6 +250,26 @@ func sameBuffer(a, b ssa.Value) bool {
 	}
 	if s, ok := b.(*ssa.Slice); ok && s.Low == nil {
 		return sameBuffer(a, s.X)
+	}
+	// a buffer variable captured by closures is spilled to memory: two loads of a local that is assigned exactly once
+	la, ok1 := isLoad(a)
+	lb, ok2 := isLoad(b)
+	if ok1 && ok2 && la.X == lb.X {
+		if al, isAlloc := la.X.(*ssa.Alloc); isAlloc {
+			stores := 0
+			for _, ref := range *al.Referrers() {
+				if st, isSt := ref.(*ssa.Store); isSt && st.Addr == ssa.Value(al) {
+					stores++
+				}
+			}
+			// closures may also store: any MakeClosure binding the variable whose body stores to it
+			for _, ref := range *al.Referrers() {
+				if mc, isMC := ref.(*ssa.MakeClosure); isMC && closureStoresTo(mc, al) {
+					stores += 2
+				}
+			}
+			return stores == 1
+		}
 	}
 	return false
 }
@@ -720,4 +740,55 @@ func init() {
 			r.Undec("C05.10", "core.Superblock#checksum-versions", c.Pos(full.Pos()), "no version reaches a CRC computation in the superblock writer")
 		}
 	})
+}
+
+// sameCursorLoad: a and b are `load(X) + k` with the same k for two loads of the same local variable X in one block, with no
+// store to X and no call that could run a closure over X between them (a cursor that closures advance is spilled to memory
+// by the SSA builder; two reads of it with nothing in between are one value).
+func sameCursorLoad(a, b Lin) bool {
+	if a.C != b.C || len(a.T) != 1 || len(b.T) != 1 {
+		return false
+	}
+	var la, lb *ssa.UnOp
+	for k, cf := range a.T {
+		u, ok := k.(*ssa.UnOp)
+		if !ok || cf != 1 || u.Op != token.MUL {
+			return false
+		}
+		la = u
+	}
+	for k, cf := range b.T {
+		u, ok := k.(*ssa.UnOp)
+		if !ok || cf != 1 || u.Op != token.MUL {
+			return false
+		}
+		lb = u
+	}
+	if la.X != lb.X || la.Block() != lb.Block() {
+		return false
+	}
+	if _, isAlloc := la.X.(*ssa.Alloc); !isAlloc {
+		return false
+	}
+	i, j := instrIndex(la), instrIndex(lb)
+	if i > j {
+		i, j = j, i
+	}
+	for _, in := range la.Block().Instrs[i:j] {
+		switch x := in.(type) {
+		case *ssa.Store:
+			if x.Addr == la.X {
+				return false
+			}
+		case *ssa.Call:
+			if _, isBuiltin := x.Call.Value.(*ssa.Builtin); isBuiltin {
+				continue
+			}
+			g := x.Call.StaticCallee()
+			if g == nil || g.Parent() != nil || inModule(fnPkgPath(g)) {
+				return false // a closure, a dynamic call or module code that may hold the closure
+			}
+		}
+	}
+	return true
 }
